@@ -291,21 +291,36 @@ def expectTok (t : String) (what : String) : Toks → Except String Toks
   | h :: rest => if h = t then .ok rest else .error s!"{what}(got-{h})"
   | [] => .error s!"{what}(got-end)"
 
-/-- the members `name:atom` of one object, in the order of `wants`, separated by `,` -/
-def checkMembers (path : String) (ip : RestSpec.Quad) (port : Int) (e : RestSpec.Entity) :
-    List (String × RestSpec.Want) → Toks → Except String Toks
-  | [], ts => .ok ts
-  | (name, w) :: rest, ts =>
+/-- the scalar members `name:atom,name:atom,…` up to the closing brace, as they come -/
+def collectMembers : Nat → Toks → List (String × String) → Except String (List (String × String) × Toks)
+  | 0, _, _ => .error "members:too-many"
+  | fuel + 1, ts, acc =>
     match ts with
-    | k :: ":" :: a :: ts' =>
-      if k ≠ name then .error s!"{path}{name}:missing-or-misplaced(got-{k})"
-      else match atomOf a with
-        | none => .error s!"{path}{name}:not-a-scalar"
-        | some atom =>
-          if !w.holds ip port e atom then .error s!"{path}{name}"
-          else if rest.isEmpty then .ok ts'
-          else (expectTok "," s!"{path}{name}:last-member" ts').bind (checkMembers path ip port e rest)
-    | _ => .error s!"{path}{name}:truncated"
+    | k :: ":" :: a :: "," :: ts' => collectMembers fuel ts' (acc ++ [(k, a)])
+    | k :: ":" :: a :: ts' => .ok (acc ++ [(k, a)], ts')
+    | _ => .error "members:truncated"
+
+/-- the members of one object are exactly those of `wants`, each with a value that holds — in ANY order: the order of the
+members of a JSON object carries no meaning (the order the handlers write today is pinned separately, by `facts_json_ok`) -/
+def checkMembers (path : String) (ip : RestSpec.Quad) (port : Int) (e : RestSpec.Entity)
+    (wants : List (String × RestSpec.Want)) (ts : Toks) : Except String Toks :=
+  if wants.isEmpty then .ok ts else
+  match collectMembers (wants.length + 1) ts [] with
+  | .error err => .error s!"{path}{err}"
+  | .ok (got, rest) =>
+    match wants.find? fun (name, _) => !(got.any fun (k, _) => k == name) with
+    | some (name, _) => .error s!"{path}{name}:missing"
+    | none =>
+      match got.find? fun (k, _) => !(wants.any fun (name, _) => name == k) with
+      | some (k, _) => .error s!"{path}{k}:extra-member"
+      | none =>
+        if got.length ≠ wants.length then .error s!"{path}:duplicate-member"
+        else match wants.find? fun (name, w) =>
+            match got.find? fun (k, _) => k == name with
+            | some (_, a) => (match atomOf a with | some atom => !w.holds ip port e atom | none => true)
+            | none => true with
+          | some (name, _) => .error s!"{path}{name}"
+          | none => .ok rest
 
 /-- `{…}` with exactly the members of `wants` -/
 def checkObject (path : String) (ip : RestSpec.Quad) (port : Int) (e : RestSpec.Entity)
@@ -355,6 +370,13 @@ def wholeBody (r : Except String Toks) : Bool × String :=
 inductive Shape where
   | server | detail
 
+/-- a body that carries nothing but an `error` member with a string value — whatever the text: the property fixes no
+message, only that a response other than 200 carries no server data -/
+def isErrorOnly (body : String) : Bool :=
+  let cs := body.toList
+  body.startsWith "{error:s" && body.endsWith "}" &&
+    ((cs.drop 8).take (cs.length - 9)).all fun c => c.isDigit || ('a' ≤ c && c ≤ 'f')
+
 /-- the body of an add / view answer: a 200 is the planted record, anything else carries no server data -/
 def bodyOracle (shape : Shape) (pl : Option Planted) (code : Nat) (body : String) : Bool × String :=
   if code = 200 then
@@ -364,7 +386,7 @@ def bodyOracle (shape : Shape) (pl : Option Planted) (code : Nat) (body : String
       match shape with
       | .server => wholeBody (checkServer "" p.spec (tokenize body))
       | .detail => wholeBody (checkDetail p.spec (tokenize body))
-  else if body = "~" ∨ body = errorBody invalidAddressMessage then (true, "")
+  else if body = "~" ∨ isErrorOnly body then (true, "")
   else (false, "sig=body:data-without-200")
 
 /-- oracle common to the three HTTP operations, on the implementation's five output tokens -/
